@@ -21,7 +21,8 @@ EXPLANATION = "Which features are enabled, the server's answer to the cancel req
 OPEN_KINDS = ["session", "direct-tcpip", "x11", "auth-agent@openssh.com", "forwarded-tcpip", "bogus"]
 GLOBAL_KINDS = ["tcpip-forward", "cancel-tcpip-forward", "keepalive@openssh.com", "hostkeys-00@openssh.com"]
 REQ_KINDS = ["exec", "shell", "subsystem", "pty-req", "env", "x11-req", "auth-agent-req@openssh.com", "window-change", "bogus"]
-FWD = ["never-requested", "active", "request-denied-by-server", "cancelled", "cancel-refused-by-server"]
+FWD = ["never-requested", "active", "request-denied-by-server", "cancelled", "cancel-refused-by-server",
+       "granted,cancelled,then-a-second-request-denied"]
 
 
 def _client(ctx, script):
@@ -47,17 +48,36 @@ def open_case():
                     t._set_x11_handler(lambda chan, addr: got.append(("x11", chan)))
                 if agent:
                     t._set_forward_agent_handler(lambda chan: got.append(("agent", chan)))
-                if fwd != "never-requested":
-                    # the real request_port_forward; the server's answer to the tcpip-forward global request is the environment
-                    from paramiko.ssh_exception import SSHException
-                    t.global_request = lambda *a, **k: (None if fwd == "request-denied-by-server" else Message())
+                # the real request_port_forward / cancel_port_forward / global_request; the server's answer to each
+                # global request (REQUEST_SUCCESS or REQUEST_FAILURE) is delivered through the real handlers at the
+                # moment the request is sent
+                from paramiko.ssh_exception import SSHException
+                answers = []
+                real_send_user = t._send_user_message
+
+                def send_user(m):
+                    real_send_user(m)
+                    if answers:
+                        (t._parse_request_success if answers.pop(0) else t._parse_request_failure)(Message())
+                t._send_user_message = send_user
+
+                def forward():
                     try:
                         t.request_port_forward("h", 1, handler=lambda chan, o, s: got.append(("tcp", chan)))
                     except SSHException:
                         pass
-                if fwd in ("cancelled", "cancel-refused-by-server"):
-                    t.global_request = lambda *a, **k: (Message() if fwd == "cancelled" else None)
+                if fwd == "granted,cancelled,then-a-second-request-denied":
+                    answers[:] = [True, True, False]
+                    forward()
                     t.cancel_port_forward("h", 1)
+                    forward()
+                elif fwd != "never-requested":
+                    answers[:] = [fwd != "request-denied-by-server"]
+                    forward()
+                if fwd in ("cancelled", "cancel-refused-by-server"):
+                    answers[:] = [fwd == "cancelled"]
+                    t.cancel_port_forward("h", 1)
+                t._send_user_message = real_send_user
                 probe["nsent"] = len(t.sent)
                 return (MSG_CHANNEL_OPEN, body, 3)
             script = L.Script(L.handshake_prefix(False) + [marker])
